@@ -16,8 +16,11 @@ def run(ctx):
     vlib.finish(
         ctx, "proof",
         "theorems (byte level): a byte not written since the last truncation at or below it reads as zero; shrink to any size then grow exposes zeros; "
-        "writes touch one file; a created file is empty. Correspondence: every READ of the server compared byte for byte with the reference",
+        "writes touch one file; a created file is empty. Block level (M7d, the bytes of a file on disk blocks under the pointer tree of M7): a WRITE shows exactly its bytes, a truncation cuts "
+        "(also inside the last block) and growth exposes zeros, a hole-filling READ changes no byte, and after any history the blocks show what the content log says "
+        "(block_level_file_refines_the_content_log). Correspondence: every READ of the server compared byte for byte with the reference",
         "as C02: written data never contains zero bytes, files are shrunk to aligned and unaligned sizes and re-grown, removed and their blocks recycled "
         "by new files, sparse writes at block-map boundaries; every READ/READLINK reply is compared with the model",
         ["the block-level invariant (free blocks are zero on disk) is not yet modelled"],
-        pending=["no_foreign_bytes at the byte level of a block (M7 models pointers and whole blocks; freed blocks are proved all-zero: freed_blocks_are_all_zeros)"])
+        pending=["the hypothesis FreshOK of the block-level theorems (a block the allocator hands out holds zero BYTES) is discharged at block granularity only: freed_blocks_are_all_zeros (M7) and "
+                 "allocator_stream_is_fresh_and_distinct (M2) speak of whole blocks / index cells; the bytes of a freed DATA block are zeroed by FreeBlock in the code and not in a model"])
